@@ -220,11 +220,14 @@ def cond_key(F, i, truth=True):
 
 class Ctx:
     """What a rule's transfer function can ask about the current path."""
-    __slots__ = ("F", "consts", "facts", "bid", "cond_node", "cond_val")
+    __slots__ = ("F", "consts", "facts", "bid", "cond_node", "cond_val", "switch")
 
-    def __init__(self, F, consts, facts, bid, cond_node=None, cond_val=None):
+    def __init__(self, F, consts, facts, bid, cond_node=None, cond_val=None, switch=None):
         self.F, self.consts, self.facts, self.bid = F, consts, facts, bid
         self.cond_node, self.cond_val = cond_node, cond_val
+        # on an edge out of a switch: (switch operand node, enumerator name or None, case value or None = default arm,
+        # [case values of the other arms])
+        self.switch = switch
 
     def value(self, i):
         """Constant integer value of node i on this path, or None."""
@@ -464,7 +467,8 @@ def simulate(F, ts, init=None, max_states=200000, entry_facts=None, entry_consts
                 # taking `case C:` of `switch (var)` establishes var == C on this path
                 imp = (n0["n"], cv) if (cv is not None and n0.get("k") == "ref" and n0.get("dk") in ("var", "param")
                                         and "cv" not in n0) else None
-                edges.append((s, ("%s == %s" % (key, cv)) if cv is not None else None, True, imp, None, None))
+                edges.append((s, ("%s == %s" % (key, cv)) if cv is not None else None, True, imp, None,
+                              ("switch", B.tc, F.blocks[s].casename, cv, tuple(cvals))))
         else:
             for s in succs:
                 if s is not None:
@@ -497,7 +501,11 @@ def simulate(F, ts, init=None, max_states=200000, entry_facts=None, entry_consts
                 else:
                     nc.pop("?v%d" % B.ts, None)
             for st2 in states:
-                r = ts.edge(F, bid, key, truth, st2, Ctx(F, nc, nf, bid, aj, aval))
+                if isinstance(aval, tuple) and aval and aval[0] == "switch":
+                    ectx = Ctx(F, nc, nf, bid, None, None, switch=aval[1:])
+                else:
+                    ectx = Ctx(F, nc, nf, bid, aj, aval)
+                r = ts.edge(F, bid, key, truth, st2, ectx)
                 rs = r if isinstance(r, (set, list)) else ([r] if r is not None else [])
                 for st3 in rs:
                     item = (s, st3, frozenset(nc.items()), frozenset(nf.items()))
